@@ -40,6 +40,7 @@ def apply_commands(base, file_cmds):
     tree = dict(base)
     notes = []
     occupied = set()  # paths (re)created by an earlier command of this commit
+    moved_away = set()  # old paths of what an earlier rename of this commit moved elsewhere
     for fc in file_cmds:
         name = fc.name
         if name == b"filemodify":
@@ -65,7 +66,8 @@ def apply_commands(base, file_cmds):
         elif name == b"filedelete":
             path = fc.path.decode("utf-8")
             if path not in tree:
-                notes.append(("delete-of-missing-path", path))
+                # git ignores it; if the path was moved by an earlier rename of the commit the command addresses it by its old name
+                notes.append(("delete-by-old-path-after-rename" if path in moved_away else "delete-of-missing-path", path))
             elif path in occupied:
                 # the commit itself has just put something there (a rename onto the path, a new file): deleting it again
                 # cannot be what the revision means
@@ -86,6 +88,7 @@ def apply_commands(base, file_cmds):
             for p in _under(tree, src):
                 moved[p] = tree[p]
             if name == b"filerename":
+                moved_away.update(moved)
                 _remove(tree, src)
             _remove(tree, dst)  # git: an existing destination is completely replaced
             _make_parents(tree, dst, notes)
